@@ -13,10 +13,20 @@ def visible(log):
     return [(i, k) for i, k in log if k not in ("su", "em", "rf")]
 
 
-def run_config(c, start, evs, host, spied, live_spy=False, live_trace=False, builder=None):
+def query_after(chart, i, kind, e, status):
+    """a handler that asks the chart where it is after it has decided (e.g. after chart.trans(target)): harmless
+    on every host / decorator / flag combination"""
+    if (kind[0] == "u" or kind == "in") and hasattr(chart, "current_state"):
+        chart.current_state()
+
+
+def run_config(c, start, evs, host, spied, live_spy=False, live_trace=False, builder=None, query=False):
     """returns (list of per-event visible call lists, final state id, error)"""
     log = []
     build = builder or c.build
+    if query and builder is None:
+        import functools
+        build = functools.partial(c.build, after=query_after)
     per_step = []
     err = None
     try:
@@ -101,8 +111,10 @@ def explore(run, n_random, with_active=True):
     rng = run.rng
     for _ in range(n_random):
         c, start, evs = gen(rng)
+        query = rng.random() < 0.5
         ref_steps, ref_final, ref_err = run_config(c, start, evs, "plain", False)
-        cj = {"chart": c.to_json(), "start": start, "events": evs}
+        cj = {"chart": c.to_json(), "start": start, "events": evs, "query": query}
+        run.count("handlers call current_state() after deciding" if query else "handlers do not query the chart")
         hosts = HOSTS if with_active else HOSTS[:3]
         for host in hosts:
             for spied in (False, True):
@@ -112,7 +124,7 @@ def explore(run, n_random, with_active=True):
                 for ls, lt in flags:
                     if host == "active" and rng.random() < 0.5:
                         continue          # thread start-up is the expensive part: sample
-                    steps, final, err = run_config(c, start, evs, host, spied, ls, lt)
+                    steps, final, err = run_config(c, start, evs, host, spied, ls, lt, query=query)
                     run.traces_validated += 1
                     run.count("host=%s spied=%s" % (host, spied))
                     same = flat(steps) == flat(ref_steps) and final == ref_final and err == ref_err
@@ -177,5 +189,5 @@ def replay(case):
     c = charts.GenChart.from_json(cc["chart"])
     for host in HOSTS:
         for spied in (False, True):
-            print(host, spied, run_config(c, cc["start"], cc["events"], host, spied))
+            print(host, spied, run_config(c, cc["start"], cc["events"], host, spied, query=cc.get("query", False)))
     return 0
